@@ -55,6 +55,15 @@ def main():
         d = os.path.join(SEEDED, sid)
         meta = json.load(open(os.path.join(d, "meta.json")))
         checks = meta.get("checks") or [meta["property"]]
+        base = meta.get("base")
+        if base and scratch:
+            # a change written against an earlier commit whose failure mode a later fix: commit removed altogether
+            # (meta.json says which): it is run on a worktree of that commit
+            sh("git -C %s checkout -q --detach %s" % (REPO, base))
+        elif base:
+            results[sid] = dict(error="needs --scratch (base commit %s)" % base)
+            print("%-28s SKIPPED (base commit %s needs --scratch)" % (sid, base))
+            continue
         r = sh("git -C %s apply --whitespace=nowarn %s" % (REPO, os.path.join(d, "patch.diff")))
         if r.returncode != 0:
             results[sid] = dict(error="patch does not apply: " + r.stderr[-300:])
@@ -69,15 +78,19 @@ def main():
                 p = subprocess.run(["/usr/bin/python3", os.path.join(VERIF, "engine", "run_check.py"), c, "--tier", tier],
                                    capture_output=True, text=True, cwd=VERIF, env=env)
                 sigs = [l.split("signature:", 1)[1].strip() for l in p.stdout.splitlines() if "signature:" in l]
-                res[c] = dict(rc=p.returncode, signatures=sigs[:8], wall_s=round(time.time() - t0, 1))
+                res[c] = dict(rc=p.returncode, signatures=sigs[:8] if not meta.get('expect_signature_substr') else sigs[:40], wall_s=round(time.time() - t0, 1))
                 print("%-28s %-4s rc=%d %s (%.0fs)" % (sid, c, p.returncode,
                                                       "DETECTED " + "; ".join(sigs[:3]) if p.returncode == 1 else
                                                       ("BROKEN" if p.returncode == 2 else "missed"), time.time() - t0))
                 sys.stdout.flush()
+            want = meta.get("expect_signature_substr")
             results[sid] = dict(property=meta["property"], tier=tier, checks=res,
-                                detected=any(v["rc"] == 1 for v in res.values()))
+                                detected=any(v["rc"] == 1 and (not want or any(want in g for g in v["signatures"]))
+                                             for v in res.values()))
         finally:
             clean_repo()
+            if base and scratch:
+                sh("git -C %s checkout -q --detach %s" % (REPO, sh("git -C /repo rev-parse HEAD").stdout.strip()))
     if scratch:
         sh("git -C /repo worktree remove --force %s; git -C /repo worktree prune" % REPO)
     prev = {}
